@@ -289,7 +289,7 @@ Section Sequential.
     fst (next n r) = Some b /\ Inv (snd (next n r)) rest.
   Proof.
     intros Hnf [Hlen [_ HL]]. destruct (HL ltac:(discriminate)) as [Hf [Herr [v [Hv [Hrest [Hfit [Hcells Hmark]]]]]]].
-    destruct v as [|b0 v']; [contradiction|]. simpl in Hrest. inversion Hrest as [[Eb Er]]. subst b0.
+    destruct v as [|b0 v']; [contradiction|]. simpl in Hrest. injection Hrest as Eb Er. subst b0.
     assert (Hb : nth (forward r) (buff r) 0%N = b).
     { specialize (Hcells 0 ltac:(simpl; lia)). rewrite Nat.add_0_r in Hcells. exact Hcells. }
     destruct (hend_bounds (forward r) Hf) as [Hlt [Hle Hcase]].
@@ -302,27 +302,27 @@ Section Sequential.
     - (* end of the first half: the second half is loaded *)
       apply Nat.eqb_eq in E1.
       assert (Hh : hend (forward r) = n) by (unfold hend; assert (X : (forward r <? n) = true) by (apply Nat.ltb_lt; lia); rewrite X; reflexivity).
-      assert (Hv' : v' = []) by (destruct v'; [reflexivity | cbn [length] in Hfit; lia]). subst v'. simpl in Er.
+      assert (Hv' : v' = []) by (destruct v'; [reflexivity | cbn [length] in Hfit; lia]). subst v'. cbn [app] in *.
       destruct (load_inv n r1 Hlen1 (or_intror eq_refl) Herr1) as [He Hl']. cbn [src r1 with_fwd] in He, Hl'.
       unfold Inv. destruct rest as [|c rest'].
-      + destruct (He (eq_sym Er)) as [H1 H2]. split; [exact H2|]. split; [intros _; exact H1 | intros X; contradiction].
+      + destruct (He (eq_sym Er)) as [H1 H2]. split; [exact H2|]. split; [intros _; exact H1 | intros X; exfalso; congruence].
       + assert (Hne : src r <> []) by (rewrite <- Er; discriminate).
-        destruct (Hl' Hne) as [H1 [H2 H3]]. split; [exact H2|]. split; [intros X; discriminate|]. intros _.
+        destruct (Hl' Hne) as [H1 [H2 H3]]. split; [exact H2|]. split; [intros X; exfalso; congruence|]. intros _.
         assert (E : with_fwd (load n n r1) n = load n n r1).
         { rewrite <- (with_fwd_same (load n n r1)) at 2. rewrite load_forward. unfold r1. cbn [forward with_fwd]. rewrite E1. reflexivity. }
-        rewrite E in H3. rewrite Er. exact H3.
+        rewrite E in H3. first [exact H3 | rewrite Er; exact H3 | rewrite <- Er; exact H3].
     - apply Nat.eqb_neq in E1. destruct (S (forward r) =? 2 * n) eqn:E2.
       + (* end of the second half: the first half is loaded and forward wraps *)
         apply Nat.eqb_eq in E2.
         assert (Hh : hend (forward r) = 2 * n).
         { unfold hend. assert (X : (forward r <? n) = false) by (apply Nat.ltb_ge; lia). rewrite X. reflexivity. }
-        assert (Hv' : v' = []) by (destruct v'; [reflexivity | cbn [length] in Hfit; lia]). subst v'. simpl in Er.
+        assert (Hv' : v' = []) by (destruct v'; [reflexivity | cbn [length] in Hfit; lia]). subst v'. cbn [app] in *.
         destruct (load_inv 0 r1 Hlen1 (or_introl eq_refl) Herr1) as [He Hl']. cbn [src r1 with_fwd] in He, Hl'.
         unfold Inv. destruct rest as [|c rest'].
-        * destruct (He (eq_sym Er)) as [H1 H2]. rewrite H1. split; [exact H2|]. split; [intros _; exact H1 | intros X; contradiction].
+        * destruct (He (eq_sym Er)) as [H1 H2]. rewrite H1. split; [exact H2|]. split; [intros _; exact H1 | intros X; exfalso; congruence].
         * assert (Hne : src r <> []) by (rewrite <- Er; discriminate).
           destruct (Hl' Hne) as [H1 [H2 H3]]. rewrite H1. cbn [buff with_fwd]. split; [exact H2|].
-          split; [intros X; discriminate|]. intros _. rewrite Er. exact H3.
+          split; [intros X; exfalso; congruence|]. intros _. first [exact H3 | rewrite Er; exact H3 | rewrite <- Er; exact H3].
       + (* inside a half *)
         apply Nat.eqb_neq in E2.
         assert (Hsame : hend (S (forward r)) = hend (forward r)).
@@ -336,14 +336,14 @@ Section Sequential.
           simpl in Er. cbn [length] in Hmark.
           destruct (Hmark ltac:(lia)) as [Hz Hs]. replace (forward r + 1) with (S (forward r)) in Hz by lia.
           rewrite Hz. cbn [N.eqb]. unfold Inv. cbn [with_err buff err r1 with_fwd].
-          split; [exact Hlen|]. rewrite Er, Hs. split; [reflexivity | intros X; contradiction].
+          split; [exact Hlen|]. rewrite Er, Hs. split; [reflexivity | intros X; exfalso; congruence].
         * (* more bytes of the file follow in this half *)
           assert (Hc : nth (S (forward r)) (buff r) 0%N = c).
           { specialize (Hcells 1 ltac:(simpl; lia)). replace (forward r + 1) with (S (forward r)) in Hcells by lia. exact Hcells. }
           assert (Hcn : c <> 0%N).
-          { inversion Hnf as [|x l Hx Hl]; subst. rewrite Er in Hl. simpl in Hl. inversion Hl; assumption. }
+          { assert (Hl : nul_free rest) by (inversion Hnf; assumption). rewrite Er in Hl. simpl in Hl. inversion Hl; assumption. }
           rewrite Hc. destruct (N.eqb_spec c 0%N) as [X|_]; [contradiction|].
-          unfold Inv. split; [exact Hlen|]. rewrite Er. split; [intros X; discriminate|]. intros _.
+          unfold Inv. split; [exact Hlen|]. rewrite Er. split; [intros X; simpl in X; discriminate X|]. intros _.
           unfold Live. cbn [forward buff err src r1 with_fwd].
           split; [lia|]. split; [exact Herr|].
           exists (c :: v''). split; [discriminate|]. split; [reflexivity|].
@@ -370,3 +370,22 @@ Section Sequential.
       f_equal. apply IH; [inversion Hnf; assumption | exact E2].
   Qed.
 End Sequential.
+
+(* ---- scripts of operations (for the correspondence with the real reader) ---- *)
+Inductive rop := ONext | ORetract.
+
+(* pending = characters read since the lexeme began (Retract is a no-op when nothing is pending) *)
+Fixpoint run_ops (n : nat) (r : rd) (pending : nat) (ops : list rop) : list (option byte) :=
+  match ops with
+  | [] => []
+  | ONext :: t =>
+    match next n r with
+    | (Some b, r') => Some b :: run_ops n r' (S pending) t
+    | (None, r') => None :: run_ops n r' pending t
+    end
+  | ORetract :: t =>
+    match pending with
+    | O => run_ops n r pending t
+    | S p => run_ops n (retract n r) p t
+    end
+  end.
